@@ -1,5 +1,4 @@
-import BedVerif.Lemmas.LapperInv
-import BedVerif.Spec.Lapper
+import BedVerif.Lemmas.GMapFind
 /-!
 # C02 — genomic interval lookup returns exactly the overlapping records
 
@@ -35,9 +34,52 @@ theorem C02_find_eq_filter_weak (l : List (Iv α)) (ops : List (Op α)) (h : Wea
   obtain ⟨hinv, _⟩ := inv_run_weak l ops h
   exact find_eq_filter _ hinv.sortedStart hinv.maxLen_ge qs qe
 
+/-! ## Map level (`GIntervalMap`): `from_iter` followed by any inserts -/
+
+/-- `iter` accounts for every loaded record exactly once -/
+theorem C02_iter_perm (bulk ins : List (Rec × α)) : (GMap.iter (GMap.build bulk ins)).Perm (bulk ++ ins) := by
+  rw [build_eq]
+  exact (foldl_iter_perm ins _).trans (List.Perm.append_right ins (fromIter_iter_perm bulk))
+
+theorem C02_len (bulk ins : List (Rec × α)) : GMap.len (GMap.build bulk ins) = (bulk ++ ins).length := by
+  rw [len_eq_iter_length]
+  exact (C02_iter_perm bulk ins).length_eq
+
+/-- C02 at map level: the result is a permutation of the loaded records that overlap the query on
+its chromosome (`specFind`), each once with its own value -/
+theorem C02_gfind_perm (bulk ins : List (Rec × α)) (q : Rec) :
+    (GMap.find (GMap.build bulk ins) q).Perm (specFind (bulk ++ ins) q) := by
+  rw [gfind_eq_filter _ (wf_build bulk ins) q]
+  exact (C02_iter_perm bulk ins).filter _
+
+theorem C02_isOverlapped (bulk ins : List (Rec × α)) (q : Rec) :
+    GMap.isOverlapped (GMap.build bulk ins) q = true ↔ specFind (bulk ++ ins) q ≠ [] := by
+  have hp := C02_gfind_perm bulk ins q
+  simp only [GMap.isOverlapped, Bool.not_eq_true', List.isEmpty_eq_false_iff]
+  constructor
+  · intro h1 h2
+    rw [h2] at hp
+    exact h1 hp.eq_nil
+  · intro h1 h2
+    rw [h2] at hp
+    exact h1 hp.symm.eq_nil
+
+/-- never a record from another chromosome -/
+theorem C02_same_chrom (bulk ins : List (Rec × α)) (q : Rec) :
+    ∀ x ∈ GMap.find (GMap.build bulk ins) q, x.1.chrom = q.chrom := by
+  intro x hx
+  have := (C02_gfind_perm bulk ins q).mem_iff.mp hx
+  simp only [specFind, List.mem_filter, Rec.ov, Bool.and_eq_true, beq_iff_eq] at this
+  exact this.2.1.1
+
 /-- non-vacuity / witness: one very long interval among short ones, a zero-length one, a duplicate
 with another value; query ends coincide with record boundaries -/
 example : (Lapper.run [(⟨0, 100, 1⟩ : Iv Nat), ⟨40, 41, 2⟩, ⟨50, 50, 3⟩] [.insert ⟨40, 41, 4⟩, .insert ⟨41, 45, 5⟩]).find 41 50
     = [⟨0, 100, 1⟩, ⟨41, 45, 5⟩] := by decide
+
+/-- map-level witness: two chromosomes whose names are prefixes of each other, a duplicate with its
+own value, a book-ended record (not a hit) and a bulk + insert history -/
+example : GMap.find (GMap.build [(⟨[1], 10, 20⟩, 0), (⟨[1, 2], 10, 20⟩, 1), (⟨[1], 20, 30⟩, 2)] [(⟨[1], 10, 20⟩, 3)]) ⟨[1], 15, 20⟩
+    = [(⟨[1], 10, 20⟩, 0), (⟨[1], 10, 20⟩, 3)] := by decide
 
 end BV
